@@ -125,7 +125,7 @@ Zeros == {VI(0), VD(0, 0), VN(VD(0, 0), "def")} \cup {VN(VI(0), k) : k \in NumKi
 \* fractions that share their integer part, in lists of float element types
 FracList == <<VD(25, 1), VD(225, 2), VD(-5, 1), VD(75, 2), VD(-25, 2)>>
 FracLists == {VLg(FracList, g) : g \in {"f32s", "f64s"}} \cup {VL(FracList), VL([i \in 1..Len(FracList) |-> VN(FracList[i], "f32")])}
-KindCases == {[fam |-> "kinds", what |-> w] : w \in {"sort", "sortfrac", "sortbig", "bigint", "zero", "zerocomputed"}}
+KindCases == {[fam |-> "kinds", what |-> w] : w \in {"sort", "sortfrac", "sortbig", "bigint", "nonstrsep", "zero", "zerocomputed"}}
 KindCaseOf(c) ==
     IF c.what = "sort" THEN
         [prop |-> "C19", key |-> ToJson(c), tags |-> {"fam:kinds", "f:sort"}, entry |-> "main", ctx |-> EmptyFn,
@@ -168,6 +168,14 @@ KindCaseOf(c) ==
                     [label |-> "rows", tp |-> ("main" :> Source(<<PrintS(FA("join", F("sort", X), <<LS(<<44>>)>>)), Text(<<124>>), PrintS(F("first", F("sort", X))), Text(<<124>>), PrintS(F("last", F("sort", X)))>>, LMin)),
                      xcalls |-> [id \in {} |-> 0], ctx |-> ("x" :> VLg(<<VI(10), VI(9), VI(100)>>, "rows")), out |-> <<57, 44, 49, 48, 44, 49, 48, 48, 124, 57, 124, 49, 48, 48>>]},
          expect |-> [ok |-> TRUE, out |-> <<>>, err |-> "", calls |-> [id \in {} |-> 0]]]
+    ELSE IF c.what = "nonstrsep" THEN
+        \* join and split with the SAME separator that is not a string (a number, a boolean, null): whatever the two make of it, the
+        \* list of separator-free strings comes back (the expectation is the list itself)
+        [prop |-> "C19", key |-> ToJson(c), tags |-> {"fam:kinds", "f:join", "f:split", "sep:nonstring"}, entry |-> "main", ctx |-> EmptyFn,
+         runs |-> {[label |-> ToJson(sep), tp |-> ("main" :> Source(<<PrintS(FA("join", FA("split", FA("join", X, <<sep>>), <<sep>>), <<LS(<<124>>)>>)), Text(<<47>>),
+                                                                     PrintS(F("length", FA("split", FA("join", X, <<sep>>), <<sep>>)))>>, LMin)),
+                    xcalls |-> [id \in {} |-> 0], ctx |-> ("x" :> VL(<<VS(<<97>>), VS(<<98>>), VS(<<99>>)>>))] : sep \in {LI(0), LI(7), LB(TRUE), Lit(Null), Var("nosuchvar")}},
+         expect |-> [ok |-> TRUE, out |-> <<97, 124, 98, 124, 99, 47, 51>>, err |-> "", calls |-> [id \in {} |-> 0]]]
     ELSE IF c.what = "sortfrac" THEN
         [prop |-> "C19", key |-> ToJson(c), tags |-> {"fam:kinds", "f:sort"}, entry |-> "main", ctx |-> EmptyFn,
          runs |-> {[label |-> ToJson(v), tp |-> ("main" :> Source(<<PrintS(FA("join", F("sort", X), <<LS(<<44>>)>>)), Text(<<124>>), PrintS(F("first", F("sort", X))),
